@@ -1,10 +1,17 @@
-(* C08 -- cancel stops the named tasks and nothing else (scheduler side;
-   the executor side -- running tasks, tasks met at executor intake -- is in
-   RP.Exec once built).  Statements only. *)
+(* C08 -- cancel stops the named tasks and nothing else.  Statements only.
+   Module SchedSide: the pilot agent's scheduler (waiting tasks, tasks met later).
+   Module ExecSide : the pilot agent's executor (running tasks, tasks met at the
+   executor's intake, bystanders), over RP.Exec.Model -- any number of tasks,
+   any schedule of the four executor threads. *)
 From Coq Require Import ZArith List Bool.
-From RP Require Import Sched.Model Sched.NodeMap Sched.Inv Sched.SchedProofs Sched.RunProofs
-                       Sched.LiveProofs Sched.CancelProofs.
+From RP Require Sched.Model Sched.NodeMap Sched.Inv Sched.SchedProofs Sched.RunProofs
+               Sched.LiveProofs Sched.CancelProofs.
+From RP Require Exec.Model Exec.Oracle Exec.Local Exec.Proj Exec.Proofs Exec.CancelProofs.
 Import ListNotations.
+
+Module SchedSide.
+Import RP.Sched.Model RP.Sched.NodeMap RP.Sched.Inv RP.Sched.SchedProofs RP.Sched.RunProofs
+       RP.Sched.LiveProofs RP.Sched.CancelProofs.
 Open Scope Z_scope.
 
 (* a named task that is waiting is taken out of the wait pool ... *)
@@ -83,3 +90,67 @@ Example C08_nonvacuous :
   cancel_uids [5; 9; 1] wp [] =
   ([(0, [mkReq 2 1 1 0 0 0 0 0 None false None None]); (3, [])], [Canceled 5; Canceled 1]).
 Proof. vm_compute. reflexivity. Qed.
+
+End SchedSide.
+
+Module ExecSide.
+Import RP.Exec.Model RP.Exec.Oracle RP.Exec.Local RP.Exec.Proj RP.Exec.Proofs RP.Exec.CancelProofs.
+
+(* a named task that is running: once cancel_task has found its process running
+   and taken it over, it is never collected and never failed; at quiescence it
+   has been handed on exactly once, as CANCELED, its resources were released
+   exactly once, and its process does not run any more *)
+Theorem C08_named_running_killed_and_released_once :
+  forall sc sched s tr u,
+    NoDup (delivered sc) -> In u (delivered sc) -> run (init sc) sched = (s, tr) -> own_of u tr = true ->
+    let ems := emissions tr in
+    n_collected u ems = 0%nat /\ n_adv SFailed u ems = 0%nat /\
+    (quiescent s = true ->
+     n_canceled u ems = 1%nat /\ n_adv SStaging u ems = 1%nat /\ n_hand u ems = 1%nat /\ n_uns u ems = 1%nat /\
+     is_running (world s u) = false).
+Proof. exact cancel_named_running. Qed.
+Print Assumptions C08_named_running_killed_and_released_once.
+
+(* a named task that the executor meets later (at its intake) is canceled
+   there: never launched, never announced as executing, CANCELED exactly once *)
+Theorem C08_named_met_at_executor_intake :
+  forall sc sched s tr u,
+    NoDup (delivered sc) -> In u (delivered sc) -> run (init sc) sched = (s, tr) ->
+    (0 < n_adv SCanceled u (emissions tr))%nat ->
+    world s u = PNone /\ n_adv SExecuting u (emissions tr) = 0%nat /\ n_adv SCanceled u (emissions tr) = 1%nat.
+Proof. exact cancel_later_met. Qed.
+Print Assumptions C08_named_met_at_executor_intake.
+
+(* tasks not named (and without a run-time limit) are unaffected: never killed,
+   never canceled, and at quiescence announced once, released once and ended
+   with their own outcome *)
+Theorem C08_bystanders_untouched_by_executor :
+  forall sc sched s tr u,
+    NoDup (delivered sc) -> In u (delivered sc) -> run (init sc) sched = (s, tr) ->
+    mem u (named sc) = false -> has_limit sc u = false ->
+    let ems := emissions tr in
+    world s u <> PKilled /\ n_canceled u ems = 0%nat /\ own_of u tr = false /\
+    (quiescent s = true ->
+     n_adv SExecuting u ems = 1%nat /\ n_uns u ems = 1%nat /\
+     match fault_of sc u with
+     | FNone => n_collected u ems = 1%nat /\ n_adv SStaging u ems = 1%nat /\ n_adv SFailed u ems = 0%nat
+     | _ => n_adv SFailed u ems = 1%nat /\ n_adv SStaging u ems = 0%nat /\ n_collected u ems = 0%nat
+     end).
+Proof. exact bystanders_untouched_exec. Qed.
+Print Assumptions C08_bystanders_untouched_by_executor.
+
+(* ... they reach the same outcome they would have reached without the
+   request: two runs over the same tasks, with ANY cancel requests not naming u
+   and ANY schedules, give u the same outcome *)
+Theorem C08_bystander_same_outcome :
+  forall sc1 sc2 sched1 sched2 s1 tr1 s2 tr2 u,
+    sc_batches sc1 = sc_batches sc2 ->
+    NoDup (delivered sc1) -> In u (delivered sc1) ->
+    run (init sc1) sched1 = (s1, tr1) -> run (init sc2) sched2 = (s2, tr2) ->
+    quiescent s1 = true -> quiescent s2 = true ->
+    mem u (named sc1) = false -> mem u (named sc2) = false -> has_limit sc1 u = false ->
+    outcome u (emissions tr1) = outcome u (emissions tr2).
+Proof. exact bystander_same_outcome. Qed.
+Print Assumptions C08_bystander_same_outcome.
+
+End ExecSide.
